@@ -333,10 +333,95 @@ def interrupt_sweep(res: Result) -> int:
     return n
 
 
+def benign_sweep(res: Result, only: str | None = None) -> int:
+    """No fault at all: a well-behaved device answers while user listeners call back into the library from inside the dispatch
+    (unsubscribe themselves, unsubscribe each other, start a new request).  Every awaited request then ends with its result and the
+    connection stays up - an error would have no cause."""
+    from ..world import ConnWorld, mk
+
+    pb = env.pb()
+    n = 0
+    listeners = ("none", "self-unsub-DI", "self-unsub-ST", "unsub-other-ST", "start-request-in-DI", "start-request-in-ST", "resubscribe-ST")
+    for noise in (False, True):
+        for lst in listeners:
+            for outstanding in (False, True):
+                for one_chunk in (False, True):
+                    key = f"benign:{'noise' if noise else 'plain'}:{lst}:{'req-outstanding' if outstanding else 'idle'}:{'one-chunk' if one_chunk else 'separate'}"
+                    if only is not None and key != only:
+                        continue
+                    w = ConnWorld(noise=noise, keepalive=1e6)
+                    try:
+                        if noise:
+                            w.connect_fully_split()
+                        else:
+                            w.connect_fully()
+                        conn = w.conn
+                        seen: list[str] = []
+                        unsubs: dict[str, Any] = {}
+
+                        def request(name: str) -> None:
+                            w.spawn(name, lambda: conn.send_message_await_response(mk("DeviceInfoRequest"), pb.DeviceInfoResponse, 10.0))
+
+                        def make(tag: str, action: str) -> Any:
+                            def cb(msg: Any) -> None:
+                                seen.append(tag)
+                                if action == "self" and tag in unsubs:
+                                    unsubs.pop(tag)()
+                                elif action == "other" and "victim" in unsubs:
+                                    unsubs.pop("victim")()
+                                elif action == "request" and "inner" not in w.tasks:
+                                    request("inner")
+                                elif action == "resub" and tag in unsubs:
+                                    unsubs.pop(tag)()
+                                    unsubs[tag] = conn.add_message_callback(cb, (pb.SensorStateResponse,))
+                            return cb
+
+                        if lst == "self-unsub-DI":
+                            unsubs["l"] = conn.add_message_callback(make("l", "self"), (pb.DeviceInfoResponse,))
+                        elif lst == "self-unsub-ST":
+                            unsubs["l"] = conn.add_message_callback(make("l", "self"), (pb.SensorStateResponse,))
+                        elif lst == "unsub-other-ST":
+                            unsubs["l"] = conn.add_message_callback(make("l", "other"), (pb.SensorStateResponse,))
+                            unsubs["victim"] = conn.add_message_callback(make("victim", "none"), (pb.SensorStateResponse,))
+                        elif lst == "start-request-in-DI":
+                            unsubs["l"] = conn.add_message_callback(make("l", "request"), (pb.DeviceInfoResponse,))
+                        elif lst == "start-request-in-ST":
+                            unsubs["l"] = conn.add_message_callback(make("l", "request"), (pb.SensorStateResponse,))
+                        elif lst == "resubscribe-ST":
+                            unsubs["l"] = conn.add_message_callback(make("l", "resub"), (pb.SensorStateResponse,))
+                        if outstanding:
+                            request("req")
+                            w.drain()
+                        frames = [w.dframe(mk("SensorStateResponse", key=1, state=1.0)), w.dframe(mk("DeviceInfoResponse", name="a")),
+                                  w.dframe(mk("SensorStateResponse", key=1, state=2.0)), w.dframe(mk("DeviceInfoResponse", name="b"))]
+                        for chunk in ([b"".join(frames)] if one_chunk else frames):
+                            if w.sock is None or w.sock.closed:
+                                break
+                            w.io_chunk(w.sock, chunk)
+                            w.drain()
+                        w.run_timers(w.loop.time() + 30.0)
+                        n += 1
+                        d = {"key": key}
+                        bad = None
+                        if conn.connection_state.name != "CONNECTED":
+                            bad = f"the connection ended ({conn.connection_state.name}) although the device behaved and nothing failed"
+                        for name in w.tasks:
+                            if w.outcome(name) != "ok":
+                                bad = f"{name} ended {w.outcome(name)} although the device answered and nothing failed" + (f"; {bad}" if bad else "")
+                        if lst.startswith("start-request") and "inner" not in w.tasks:
+                            bad = "the listener was never called"
+                        if bad:
+                            res.add(key, f"C09:no-cause:{bad} (listener {lst}; callbacks seen {seen})", d)
+                    finally:
+                        w.close()
+    return n
+
+
 def run(tier: str, seed: int) -> Result:
     res = Result("C09", "fault_enumeration")
     diff = diff_sweep(res)
     diff["interrupt_sweep_runs"] = interrupt_sweep(res)
+    diff["benign_reentrancy_runs"] = benign_sweep(res)
     total = Stats()
     cfgs: list[tuple[bool, str, tuple[str, ...], int, int]] = []
     q = tier == "quick"
@@ -405,6 +490,11 @@ def _replay_interrupt(rp: dict[str, Any]) -> bool:
 def replay(rp: dict[str, Any]) -> bool:
     if str(rp.get("key", "")).startswith("interrupt:"):
         return _replay_interrupt(rp)
+    if str(rp.get("key", "")).startswith("benign:"):
+        res = Result("C09", "fault_enumeration")
+        benign_sweep(res, only=rp["key"])
+        print(rp["key"], "->", [v.clause for v in res.violations] or "holds")
+        return not res.violations
     d = rp["detail"]
     if d.get("harness") == "c09-diff":
         cfg = (d["cfg"][0], d["cfg"][1], tuple(d["cfg"][2]))
